@@ -6,9 +6,12 @@
    depth), signal placements [sigs c], message types / message IDs [wire c] and numbers [k] of TryToReplaceLoop calls
    from goroutines that are not handlers.  [repaired_waits c = true]: the code after the repairs of Ping and of
    handleReq (every blocking point asks for a replacement loop); [fixed c = true]: after the repair of F14.
-   Proofs: Reader/Proofs.v, Reader/Mid.v. *)
+   Round 3: the same at the granularity of the reader's mutex (Reader/Mutex.v: runs [frun] in which other goroutines
+   act while a goroutine is between the Lock and the Unlock of TryToReplaceLoop / of a loop's re-lock), and the
+   property's clause for callbacks (Reader/Callbacks.v).
+   Proofs: Reader/Proofs.v, Reader/Mid.v, Reader/Mutex.v, Reader/Callbacks.v. *)
 From Coq Require Import ZArith List Bool Permutation Lia.
-From GoCoap Require Import Reader.Model Reader.Spec Reader.Proofs Reader.Mid.
+From GoCoap Require Import Reader.Model Reader.Spec Reader.Proofs Reader.Mid Reader.Mutex Reader.Callbacks.
 Import ListNotations.
 Open Scope Z_scope.
 
@@ -219,4 +222,127 @@ Proof.
   split. { intros m _. match goal with |- key_eqb _ (key_of ?c 4) = false => change (key_of c 4) with (@None Z) end.
            match goal with |- key_eqb ?x None = false => destruct x; reflexivity end. }
   vm_compute. repeat split; reflexivity.
+Qed.
+
+
+(* ------------------------------------------------------------------ *)
+(* Round 3.  The reader's mutex at the granularity of its Lock / Unlock calls (Reader/Mutex.v): TryToReplaceLoop starts
+   the new loop INSIDE its section, a replaced loop holds the mutex while it stores its reading flag; an action that
+   takes the mutex is enabled only while it is free (sync.Mutex.Lock blocks) and leaves its actor holding it until a
+   separate unlock step.  Every such run is a run of Reader/Model.v ... *)
+Theorem C11_mutex_refines : forall c sched f f',
+  frun c f sched = Some f' -> run c (base f) (erase sched) = Some (base f').
+Proof. exact frun_erase. Qed.
+Print Assumptions C11_mutex_refines.
+
+(* ... a complete one ends with the mutex free and is complete there, so: exactly once, *)
+Theorem C11_mutex_exactly_once : forall c msgs k sched f,
+  repaired_waits c = true ->
+  frun c (finit msgs k) sched = Some f -> fterminal c f -> closed (base f) = false ->
+  mtx f = None /\ Permutation msgs (map fst (log (base f))).
+Proof. intros c msgs k sched f H1 H2 H3 H4. split; [eapply fterminal_free; eauto | eapply frun_exactly_once; eauto]. Qed.
+Print Assumptions C11_mutex_exactly_once.
+
+(* never stalls: in every reachable state with the connection open either somebody holds the mutex and can release it,
+   or it is free and the current loop is live, unblocked and at its select or able to move, *)
+Theorem C11_mutex_never_stalls : forall c msgs k sched f,
+  repaired_waits c = true ->
+  frun c (finit msgs k) sched = Some f -> closed (base f) = false ->
+  (exists o f', mtx f = Some o /\ fstep c f (FUnlock o) = Some f') \/
+  (mtx f = None /\
+   exists lc, nth_error (loops (base f)) (cur (base f)) = Some lc /\ l_done lc = false /\ l_pc lc <> PExit /\
+     blocked_pc (l_pc lc) = false /\
+     (l_pc lc = PSelect \/ exists f', fstep c f (FA (ALoop (cur (base f)) AltQueue)) = Some f') /\
+     forall l lp, nth_error (loops (base f)) l = Some lp -> blocked_pc (l_pc lp) = true -> l <> cur (base f)).
+Proof. exact frun_never_stalls. Qed.
+Print Assumptions C11_mutex_never_stalls.
+
+(* nested requests return, *)
+Theorem C11_mutex_nested_returns : forall c msgs k sched f,
+  repaired_waits c = true -> NoDup msgs ->
+  frun c (finit msgs k) sched = Some f -> fterminal c f -> closed (base f) = false ->
+  forall l lp m r ops, nth_error (loops (base f)) l = Some lp -> l_pc lp = PWait m r ops -> own_key c r -> ~ In r msgs.
+Proof. exact frun_nested_returns. Qed.
+Print Assumptions C11_mutex_nested_returns.
+
+(* and the property predicate of Reader/Spec.v holds (arrival order for calm runs) *)
+Theorem C11_mutex_dispatch_spec : forall c msgs k sched f nb,
+  fixed c = true -> repaired_waits c = true -> NoDup msgs ->
+  (forall r, In r msgs -> own_key c r) ->
+  frun c (finit msgs k) sched = Some f -> fterminal c f -> closed (base f) = false ->
+  (nb = true -> calm c (init msgs k) (erase sched) = true) ->
+  holds (obs_of msgs (base f) nb) = true.
+Proof. exact fmodel_satisfies_spec. Qed.
+Print Assumptions C11_mutex_dispatch_spec.
+
+(* why the Lock of TryToReplaceLoop has to wait: if a call that finds the mutex held gave up (TryLock), the handler
+   of message 2 - dispatched by the loop that the handler of message 1 has just started and whose starter still
+   holds the mutex - would block without a replacement loop: complete run, connection open, response 3 queued and
+   never dispatched *)
+Theorem C11_trylock_stalls_refuted :
+  exists f, frun_gen fstep_try try_cfg (finit [1; 2; 3] 0) try_sched = Some f /\
+    fquiescent_gen fstep_try try_cfg f = true /\ closed (base f) = false /\
+    map fst (log (base f)) = [1; 2] /\ queue (base f) = [3] /\ prod (base f) = [] /\ length (loops (base f)) = 2%nat /\
+    (exists lp, nth_error (loops (base f)) 0 = Some lp /\ l_pc lp = PWait 1 3 []) /\
+    (exists lp, nth_error (loops (base f)) 1 = Some lp /\ l_pc lp = PWait 2 3 []) /\
+    none_dropped (obs_of [1; 2; 3] (base f) false) = false.
+Proof. exact trylock_stalls. Qed.
+Print Assumptions C11_trylock_stalls_refuted.
+
+(* callbacks: every notification of an observation runs the same callback program [cb] (any blocking requests) and
+   nothing is held across the callback; for all notifications, other messages, queue sizes and schedules a complete
+   run with the connection open has dispatched everything, every request of a callback whose response arrived has
+   returned and no loop is left waiting for a lock *)
+Theorem C11_callbacks_do_not_stall : forall n cb notifs others msgs k sched s,
+  let c := notif_cfg n cb notifs others in
+  NoDup msgs -> run c (init msgs k) sched = Some s -> terminal c s -> closed s = false ->
+  Permutation msgs (map fst (log s)) /\
+  (forall l lp m r ops, nth_error (loops s) l = Some lp -> l_pc lp = PWait m r ops -> ~ In r msgs) /\
+  (forall l lp, nth_error (loops s) l = Some lp -> forall m, l_pc lp <> PLock m).
+Proof. exact callbacks_do_not_stall. Qed.
+Print Assumptions C11_callbacks_do_not_stall.
+
+(* notifications of one observation serialized by a lock held across the callback (no replacement request) *)
+Theorem C11_serialized_callbacks_refuted :
+  exists s, run serial_cfg (init [1; 2; 3] 0) serial_sched = Some s /\ quiescent serial_cfg s = true /\ closed s = false /\
+    map fst (log s) = [1; 2] /\ queue s = [3] /\ prod s = [] /\ length (loops s) = 2%nat /\
+    (exists lp, nth_error (loops s) 0 = Some lp /\ l_pc lp = PWait 1 3 []) /\
+    (exists lp, nth_error (loops s) 1 = Some lp /\ l_pc lp = PLock 2) /\
+    none_dropped (obs_of [1; 2; 3] s false) = false.
+Proof. exact serialized_callbacks_stall. Qed.
+Print Assumptions C11_serialized_callbacks_refuted.
+
+(* a blocking operation that does not ask for a replacement loop (Conn.DoObserve called by a handler, before its repair) *)
+Theorem C11_wait_without_replacement_refuted :
+  exists s, run_gen step_forget forget_cfg (init [1; 2] 0) forget_sched = Some s /\
+    quiescent_gen step_forget forget_cfg s = true /\ closed s = false /\
+    map fst (log s) = [1] /\ queue s = [2] /\ prod s = [] /\ length (loops s) = 1%nat /\
+    (exists lp, nth_error (loops s) 0 = Some lp /\ l_pc lp = PWait 1 2 []) /\
+    never_stalls (mkObs [1; 2] [1] true true false [(1, 2, false)] [] []) = false.
+Proof. exact wait_without_replacement_stalls. Qed.
+Print Assumptions C11_wait_without_replacement_refuted.
+
+(* a non-trivial instance at mutex granularity: rendezvous queue, handlers of 1 and 2 nest (response 3), one external
+   caller; the external caller replaces the busy loop 0 and is still inside its section while the loop it started
+   dequeues and dispatches message 2; the handler of 2 asks for a replacement only after that unlock; complete, open,
+   calm, the mutex free at the end *)
+Example C11_instance3 :
+  let c := mkCfg 0 true true true true [(1, [HNested 3]); (2, [HNested 3; HReplace])] [] [] in
+  let L := fun l => FA (ALoop l AltQueue) in
+  let sched := [FA APush; L 0%nat; FA APush; L 0%nat; L 0%nat; FA AExt; L 1%nat; FA APush; L 1%nat; L 1%nat;
+                FUnlock OExt; L 1%nat; L 2%nat; L 2%nat; L 2%nat; FUnlock (OLoop 1); L 2%nat; L 1%nat;
+                FUnlock (OLoop 2); L 2%nat; L 1%nat; FUnlock (OLoop 1); L 1%nat; FUnlock (OLoop 1); L 1%nat;
+                L 0%nat; FUnlock (OLoop 0); L 0%nat; L 0%nat; FUnlock (OLoop 0); L 0%nat] in
+  exists f, frun c (finit [1; 2; 3] 1) sched = Some f /\ calm c (init [1; 2; 3] 1) (erase sched) = true /\
+    fterminal c f /\ closed (base f) = false /\ mtx f = None /\ map fst (log (base f)) = [1; 2; 3] /\
+    length (loops (base f)) = 3%nat /\ holds (obs_of [1; 2; 3] (base f) true) = true /\
+    (exists g, frun c (finit [1; 2; 3] 1) (firstn 10 sched) = Some g /\ mtx g = Some OExt /\
+               map fst (log (base g)) = [1; 2] /\ fstep c g (L 1%nat) = None).
+Proof.
+  cbv zeta. eexists. split; [vm_compute; reflexivity|].
+  split; [vm_compute; reflexivity|].
+  split; [apply fquiescent_fterminal; vm_compute; reflexivity|].
+  split; [reflexivity|]. split; [reflexivity|]. split; [reflexivity|]. split; [reflexivity|].
+  split; [vm_compute; reflexivity|].
+  eexists. split; [vm_compute; reflexivity|]. repeat split; reflexivity.
 Qed.
